@@ -640,6 +640,39 @@ func c07TLSStalled(c *Ctx) {
 			}
 		}
 	}
+	// established ldaps sessions that vanish: reset after a request, reset in the middle of a frame, bare FIN without
+	// close_notify, reset with a request still unanswered - on the TLS transport the teardown path differs (the
+	// close_notify cannot be delivered any more)
+	for rep := 0; rep < c.N(12, 200); rep++ {
+		cl, err := dialRaw(srv.Addr, pki.ClientPlain)
+		if err != nil {
+			c.Violate("server stopped accepting connections", err.Error(), nil)
+			return
+		}
+		cl.Send(c07Search(2, "tag=7"))
+		cl.ReadMsg(patience)
+		kind := []string{"reset-after-request", "reset-midframe", "fin-without-close-notify", "reset-with-request-unanswered"}[rep%4]
+		switch kind {
+		case "reset-after-request":
+			cl.Reset()
+		case "reset-midframe":
+			f := c07Search(3, "tag=8")
+			cl.Send(f[:len(f)/2])
+			cl.Reset()
+		case "fin-without-close-notify":
+			cl.Drop()
+		default:
+			cl.Send(c07Search(3, "tag=9"))
+			cl.Reset()
+		}
+		c.Count("faults_injected", 1)
+		c.Count("faults/tls-session-vanishes", 1)
+		c.Distinct("fault_placements", "tls-session-vanishes/"+kind)
+		if rep%4 == 3 {
+			time.Sleep(5 * time.Millisecond)
+			probe("after ldaps sessions ended by " + kind)
+		}
+	}
 }
 
 // c07Emfile provokes descriptor exhaustion at accept time.
